@@ -305,6 +305,63 @@ Proof.
   - rewrite Hrem. lia.
 Qed.
 
+Lemma s_load_hist_total sep : forall fuel fl progs s acc,
+  esr_inv (s_esr s) -> ((length (s_buf s) <= s_pos s)%nat -> iend (s_esr s) = true) ->
+  (length (remaining s) < fuel)%nat -> (2 * length (remaining s) + 1 < fl)%nat ->
+  clean (s_load_hist rd iend fuel fl sep progs s acc).
+Proof.
+  induction fuel as [|fuel IH]; intros fl progs s acc Inv Hend Hf Hfl; [lia|].
+  cbn [s_load_hist]. destruct (s_is_end iend s) eqn:He; [exact I|].
+  assert (Hne : remaining s <> []).
+  { intros Hnil. unfold CsvStreamProofs.remaining in Hnil. apply app_eq_nil in Hnil. destruct Hnil as [R1 R2].
+    apply skipn_nil_length in R1. unfold s_is_end in He. rewrite (proj2 (Nat.leb_le _ _) R1), (Hend R1) in He. discriminate. }
+  unfold s_parse_next_row.
+  destruct (s_parse_next_line_total sep s fl Inv He Hfl) as (s1 & E & Inv1 & RI1 & Hh1 & Hv1 & _ & Hlt & Hend1).
+  specialize (Hlt Hne).
+  rewrite E. cbn [andb negb].
+  destruct (negb (Nat.eqb (length (s_headers s1)) (length (s_metas s1)))) eqn:Ew; [exact I|].
+  apply negb_false_iff, Nat.eqb_eq in Ew.
+  match goal with |- context [s_read_keys ?ss _ []] => set (s2 := ss) end.
+  assert (RI2 : read_inv s2) by (subst s2; exact RI1).
+  assert (HL2 : length (s_headers s2) = length (s_metas s2)) by (subst s2; exact Ew).
+  pose proof (s_read_keys_total (hd [] progs) s2 [] RI2 HL2) as T.
+  destruct (s_read_keys s2 (hd [] progs) []) as [[cells s3]|[]| | |]; cbn [s_read_post] in T; try contradiction; try exact I.
+  destruct T as ((A1&A2&A3&A4&A5&A6) & T2 & T3 & T4 & T5). subst s2. cbn [s_esr s_headers s_pos s_buf s_metas] in *.
+  assert (Hrem : remaining s3 = remaining s1) by (unfold CsvStreamProofs.remaining; rewrite A1, A3, T3; reflexivity).
+  apply IH.
+  - rewrite A1. exact Inv1.
+  - rewrite A1, A3, T2. exact Hend1.
+  - rewrite Hrem. lia.
+  - rewrite Hrem. lia.
+Qed.
+
+Theorem csv_load_src_hist_total sep progs e0 n : esr_inv e0 -> (length (stream_rest e0) <= n)%nat ->
+  clean (csv_load_src_hist rd iend n sep progs e0).
+Proof.
+  intros Inv0 Hpl. unfold csv_load_src_hist. destruct (negb (validate_separator sep)); [exact I|].
+  unfold s_new.
+  set (s0 := mkS [] e0 [] [] 0 0 0 0 0).
+  assert (Hrem0 : remaining s0 = stream_rest e0).
+  { unfold CsvStreamProofs.remaining, s0. cbn [s_pos s_buf s_esr skipn app]. reflexivity. }
+  destruct (s_is_end iend s0) eqn:He.
+  { unfold s_parse_next_line. rewrite He. exact I. }
+  destruct (s_parse_next_line_total sep s0 (2 * n + 4)%nat Inv0 He) as (s1 & E & Inv1 & RI1 & Hh1 & Hv1 & Hle & _ & Hend1).
+  { rewrite Hrem0. lia. }
+  rewrite E.
+  pose proof (s_read_headers_total (length (s_metas s1)) s1 [] RI1) as T.
+  assert (H1 : (length (s_metas s1) + s_validx s1 <= length (s_metas s1))%nat) by (rewrite Hv1; subst s0; cbn; lia).
+  specialize (T H1).
+  destruct (s_read_headers (length (s_metas s1)) s1 []) as [[hs s2]|[]| | |]; cbn [s_read_post] in T; try contradiction; try exact I.
+  destruct T as ((A1&A2&A3&A4&A5&A6) & T2 & T3 & T4 & T5).
+  assert (Hrem : remaining (mkS (s_buf s2) (s_esr s2) hs (s_metas s2) (s_pos s2) (s_line s2) (s_rowidx s2) (s_validx s2) (s_prev s2)) = remaining s1).
+  { unfold CsvStreamProofs.remaining. cbn [s_pos s_buf s_esr]. rewrite A1, A3, T3. reflexivity. }
+  apply (s_load_hist_total sep).
+  - cbn [s_esr]. rewrite A1. exact Inv1.
+  - cbn [s_buf s_pos s_esr]. rewrite A1, A3, T2. exact Hend1.
+  - rewrite Hrem. rewrite Hrem0 in Hle. lia.
+  - rewrite Hrem. rewrite Hrem0 in Hle. lia.
+Qed.
+
 (* LoadObject over any sound source that delivers at most n bytes is total *)
 Theorem csv_load_src_total sep keys e0 n : esr_inv e0 -> (length (stream_rest e0) <= n)%nat ->
   clean (csv_load_src rd iend n sep keys e0).
@@ -335,12 +392,21 @@ Qed.
 End SRC.
 
 Arguments csv_load_src_total {Src} rd iend stream_rest esr_inv rd_spec iend_spec.
+Arguments csv_load_src_hist_total {Src} rd iend stream_rest esr_inv rd_spec iend_spec.
 
 (* LoadObject<CsvArchive> from a stream is total on every text, for every request and every chunk size *)
 Theorem csv_load_stream_total K sep keys text : (0 < K)%nat -> clean (csv_load_stream K sep keys text).
 Proof.
   intros HK. destruct (esr_new_spec K text HK) as [Hsr Inv0]. unfold csv_load_stream.
   apply (csv_load_src_total (esr_read_chunk K) esr_is_end esr_rest esr_ok
+           (fun e Inv => esr_read_chunk_spec K e HK Inv) esr_iend_spec); [exact Inv0|].
+  rewrite Hsr. apply stream_payload_length.
+Qed.
+
+Theorem csv_load_stream_hist_total K sep progs text : (0 < K)%nat -> clean (csv_load_stream_hist K sep progs text).
+Proof.
+  intros HK. destruct (esr_new_spec K text HK) as [Hsr Inv0]. unfold csv_load_stream_hist.
+  apply (csv_load_src_hist_total (esr_read_chunk K) esr_is_end esr_rest esr_ok
            (fun e Inv => esr_read_chunk_spec K e HK Inv) esr_iend_spec); [exact Inv0|].
   rewrite Hsr. apply stream_payload_length.
 Qed.
